@@ -60,6 +60,15 @@ def main(argv):
         elif argv[i] == "--update-ledger":
             update_ledger = True
             i += 1
+        elif argv[i] == "--ledger-only":
+            mod = importlib.import_module("props." + prop)
+            units = mod.build(tier)
+            present = sorted("%s/%s" % (u.name, ob.name) for u in units for ob in u.obligations)
+            lp = os.path.join(vf.ROOT, "ledger", "%s.%s.json" % (prop, tier))
+            os.makedirs(os.path.dirname(lp), exist_ok=True)
+            json.dump({"property": prop, "tier": tier, "obligations": present}, open(lp, "w"), indent=1)
+            print("ledger written (not run): %d obligations" % len(present))
+            return 0
         elif argv[i] == "--only":
             only = set(argv[i + 1].split(","))
             i += 2
